@@ -330,6 +330,7 @@ def run_property(ctx, parts, level, assumptions, level_rule, replay=None):
             "checker_cmd": checker_cmds[0] if checker_cmds else "",
             "known_findings_matched": {m: c for m, (k, c) in known_hit.items()},
             "exhaustive": False,
+            "notes": list(ctx.notes),
         }
         ev = {"property_id": ctx.pid, "tier": ctx.tier, "seed": ctx.seed, "level": level,
               "coverage": cov, "assumptions": assumptions, "wall_s": round(time.time() - ctx.t0, 2),
